@@ -192,10 +192,11 @@ CHECKS = {
     "C17": dict(
         level="model_checking",
         rule="(a) rollout histories (bring-up, two template edits -> three live revisions, delete -> finalize) x revision field paths (default, spec.template, spec.template.ver) x customize x finalize x dynamic/server-side apply/dynamic with log verbosity 10 (code behind V(n).Enabled() guards) x a 500 injected at every single request position of the history: cache fingerprint (pointer + content) around every sync and 'the hook was sent what the server delivered'; "
-             "(b) two workers syncing distinct rolling parents that share every informer, the customize cache and the SSA memo: all interleavings at API-request/hook granularity with <= 2 (thorough 3) preemptions, outcome (store + hook-request multiset) must equal a serial order's; "
+             "(a2) the decorator counterpart: decorate, edit, unselect/delete with finalize x customize x InPlace/Recreate x log verbosity x a 500 at every request position; (b) two workers syncing distinct rolling parents that share every informer, the customize cache and the SSA memo: all interleavings at API-request/hook granularity with <= 2 (thorough 3) preemptions, outcome (store + hook-request multiset) must equal a serial order's; "
              "(c) supplementary, outside the family: the same bodies free-running under the race detector (60 / 300 repetitions x 4 rounds x 3 concurrent syncs with parallel per-revision hook calls)",
         units=[
             dict(pkg=COMPOSITE, test="TestVerifC17", shards=dict(quick=8, thorough=16), budget=dict(quick=600, thorough=1800)),
+            dict(pkg=DECORATOR, test="TestVerifC17", shards=dict(quick=2, thorough=4), budget=dict(quick=600, thorough=1800)),
             dict(pkg=COMPOSITE, test="TestVerifC17Race", race=True, shards=1, budget=dict(quick=600, thorough=1800), env=dict(GOMAXPROCS="8")),
         ],
         assumptions=SIM_ASSUMPTIONS + ["the cache-fingerprint oracle also runs inside the checks of C01, C03, C06-C13, C15, C16 (every sync of every scenario)",
